@@ -100,6 +100,15 @@ def build_universe(crng, size):
     for h in hosts:
         for p in paths[: crng.choice([3, 4, len(paths)])]:
             push(schemes[0] + h + p)
+    # URLs that only carry another URL of the universe as an obvious redirection
+    # target (the normalising variants resolve them: same string, same key)
+    from urllib.parse import quote
+
+    for _ in range(crng.choice([0, 0, 1, 2])):
+        target = crng.choice(urls)
+        if "://" in target:
+            push("http://r.example/r?url=" + quote(target, safe=""))
+            push("https://l.example/l.php?u=" + quote(target, safe="") + "&h=x")
     while len(urls) < size:
         s = crng.choice(schemes)
         h = crng.choice(hosts)
